@@ -48,7 +48,7 @@ theorem base_of (c : Cl) (hg : c.hasGroup = true) (hr : 1 ≤ c.retention) (hs :
     self-update, with non-zero timestamps, pairwise distinct event numbers, MIP-03 keys and MLS
     ciphertexts (a re-wrapped copy of a commit is the same commit, not a sibling), not yet seen, their
     ciphertexts not yet consumed by the client's ratchet -/
-structure Siblings (c : Cl) (S : List Ev) : Prop where
+structure SiblingsAnyId (c : Cl) (S : List Ev) : Prop where
   path : ∀ e ∈ S, e.path = c.g.path
   kind : ∀ e ∈ S, ∃ b sw, e.kind = .commit b sw ∧ (isAdmin c.g e.sender || isPureSelfUpdate b sw) = true
   foreign : ∀ e ∈ S, e.sender ≠ c.id
@@ -56,9 +56,25 @@ structure Siblings (c : Cl) (S : List Ev) : Prop where
   distinct : ∀ e1 ∈ S, ∀ e2 ∈ S, e1 ≠ e2 → e1.n ≠ e2.n ∧ (e1.ts, e1.idnum) ≠ (e2.ts, e2.idnum) ∧ e1.cipher ≠ e2.cipher
   unseen : ∀ e ∈ S, getRec c e.n = none
   unconsumed : ∀ e ∈ S, e.cipher ∉ c.g.consumed
+  /-- each was published under the nostr group id in force at the parent state (what `build_message_event` does) -/
+  tag : ∀ e ∈ S, e.tag = c.g.recNid
 
-theorem sibs_of (c : Cl) (S : List Ev) (h : Siblings c S) : Sibs c S where
-  sib := fun e he => ⟨h.path e he, h.kind e he, by simpa using h.foreign e he, h.ts e he, h.unconsumed e he⟩
+/-- … and none of them ROTATES the nostr group id (with a rotating sibling the theorem is false of the code:
+    `single_fork_any_id_full_false`, finding `h-rotation-in-flight`) -/
+structure Siblings (c : Cl) (S : List Ev) : Prop extends SiblingsAnyId c S where
+  keepsId : ∀ e ∈ S, ∀ d sw, e.kind = .commit (.setData d) sw → d.nid = c.g.recNid
+
+/-- a body that is not an id rotation leaves the id where the record has it (given record = MLS state) -/
+theorem keeps_nid (c : Cl) (hn : c.g.recNid = c.g.nid) (b : Body)
+    (hk : ∀ d, b = .setData d → d.nid = c.g.recNid) : (applyBody (ensureSecret c.g) b).nid = c.g.recNid := by
+  cases b with
+  | selfUpdate => simp [applyBody, hn]
+  | setData d => simp [applyBody, hk d rfl]
+  | removeLeavers who => simp [applyBody, hn]
+
+theorem sibs_of (c : Cl) (S : List Ev) (hn : c.g.recNid = c.g.nid) (h : Siblings c S) : Sibs c S where
+  sib := fun e he => ⟨h.path e he, h.kind e he, by simpa using h.foreign e he, h.ts e he, h.unconsumed e he, h.tag e he,
+    fun b sw hk => keeps_nid c hn b (fun d hd => h.keepsId e he d sw (by rw [hk, hd]))⟩
   inj := by
     intro e1 h1 e2 h2 hk
     by_cases x : e1 = e2
@@ -87,6 +103,7 @@ theorem sibs_of (c : Cl) (S : List Ev) (h : Siblings c S) : Sibs c S where
         refuses it from now on. -/
 theorem single_fork_bystander (c : Cl) (S : List Ev) (l : List Ev) (nx : Nat)
     (hg : c.hasGroup = true) (hr : 1 ≤ c.retention) (hsec : SecretsOK c.g) (hm : NoForkSnapshot c)
+    (hn : c.g.recNid = c.g.nid)
     (hS : Siblings c S) (hl : ∀ e ∈ l, e ∈ S) (hne : l ≠ []) :
     ∃ w ∈ l, (∀ e ∈ l, e = w ∨ klt (key w) (key e) = true) ∧
       (l.foldl (fun c e => (deliver c e nx).1) c).g.path = c.g.path ++ [w.cipher] ∧
@@ -94,7 +111,7 @@ theorem single_fork_bystander (c : Cl) (S : List Ev) (l : List Ev) (nx : Nat)
       (getRec (l.foldl (fun c e => (deliver c e nx).1) c) w.n).map (·.state) = some 2 ∧
       ∀ e ∈ l, e ≠ w → ∃ r, getRec (l.foldl (fun c e => (deliver c e nx).1) c) e.n = some r ∧ (r.state = 3 ∨ r.state = 4) := by
   have hb := base_of c hg hr hsec hm
-  have hSs := sibs_of c S hS
+  have hSs := sibs_of c S hn hS
   have hrel := rel_run c hb S hSs nx l c ⟨none, []⟩ (rel_init c hb S hSs) (by simp [FInv]) hl
   obtain ⟨ka, hka, hap, hmin, hblk⟩ := single_fork (l.map key) (by simpa using hne)
   obtain ⟨w, hwS, hwk, hcf, hrw⟩ := hrel.chi ka hap
@@ -177,7 +194,7 @@ theorem childG_keeps_data (c : Cl) (w : Ev) (b : Body) (sw : List Nat) (hk : w.k
 
 /-- the statement without the retention hypothesis -/
 def single_fork_bystander_full : Prop :=
-  ∀ (c : Cl) (S l : List Ev) (nx : Nat), c.hasGroup = true → SecretsOK c.g → NoForkSnapshot c →
+  ∀ (c : Cl) (S l : List Ev) (nx : Nat), c.hasGroup = true → SecretsOK c.g → NoForkSnapshot c → c.g.recNid = c.g.nid →
     Siblings c S → (∀ e ∈ l, e ∈ S) → l ≠ [] →
     ∃ w ∈ l, (∀ e ∈ l, e = w ∨ klt (key w) (key e) = true) ∧
       (l.foldl (fun c e => (deliver c e nx).1) c).g.path = c.g.path ++ [w.cipher]
@@ -204,6 +221,11 @@ theorem by0_siblings0 : Siblings (by0 0) [cA, cB, cC] where
   distinct := by decide
   unseen := by decide
   unconsumed := by decide
+  tag := by decide
+  keepsId := by
+    intro e he d sw hk
+    simp only [List.mem_cons, List.not_mem_nil, or_false] at he
+    rcases he with rfl | rfl | rfl <;> simp [cA, cB, cC] at hk <;> (obtain ⟨rfl, _⟩ := hk; rfl)
 
 theorem by0_siblings5 : Siblings (by0 5) [cA, cB, cC] where
   path := by decide
@@ -219,6 +241,11 @@ theorem by0_siblings5 : Siblings (by0 5) [cA, cB, cC] where
   distinct := by decide
   unseen := by decide
   unconsumed := by decide
+  tag := by decide
+  keepsId := by
+    intro e he d sw hk
+    simp only [List.mem_cons, List.not_mem_nil, or_false] at he
+    rcases he with rfl | rfl | rfl <;> simp [cA, cB, cC] at hk <;> (obtain ⟨rfl, _⟩ := hk; rfl)
 
 /-- `retention-zero-no-rollback`: A then the better B with retention 0 — the client stays on A -/
 theorem witness_retention_zero :
@@ -227,7 +254,7 @@ theorem witness_retention_zero :
 
 theorem single_fork_bystander_full_false : ¬ single_fork_bystander_full := by
   intro h
-  obtain ⟨w, hw, hmin, hpath⟩ := h (by0 0) [cA, cB, cC] [cA, cB] 0 rfl (by0_secrets 0) (by0_nosnap 0) by0_siblings0
+  obtain ⟨w, hw, hmin, hpath⟩ := h (by0 0) [cA, cB, cC] [cA, cB] 0 rfl (by0_secrets 0) (by0_nosnap 0) rfl by0_siblings0
     (by decide) (by decide)
   have hwB : w = cB := by
     simp only [List.mem_cons, List.not_mem_nil, or_false] at hw
@@ -244,13 +271,69 @@ theorem single_fork_bystander_full_false : ¬ single_fork_bystander_full := by
     (its hypotheses hold) and its conclusion is the MIP-03 winner B (ts 19, id 9 < C: ts 19, id 11 < A: ts 20) -/
 example : ∃ w ∈ [cA, cC, cA, cB], ([cA, cC, cA, cB].foldl (fun c e => (deliver c e 0).1) (by0 5)).g.path = (by0 5).g.path ++ [w.cipher] := by
   obtain ⟨w, hw, _, hp, _⟩ := single_fork_bystander (by0 5) [cA, cB, cC] [cA, cC, cA, cB] 0 rfl (by decide)
-    (by0_secrets 5) (by0_nosnap 5) by0_siblings5 (by decide) (by decide)
+    (by0_secrets 5) (by0_nosnap 5) rfl by0_siblings5 (by decide) (by decide)
   exact ⟨w, hw, hp⟩
 
 example : ([cA, cC, cA, cB].foldl (fun c e => (deliver c e 0).1) (by0 5)).g.path = [2] ∧
     ([cA, cC, cA, cB].foldl (fun c e => (deliver c e 0).1) (by0 5)).g.name = 4 ∧
     (getRec ([cA, cC, cA, cB].foldl (fun c e => (deliver c e 0).1) (by0 5)) 1).map (·.state) = some 4 ∧
     (getRec ([cA, cC, cA, cB].foldl (fun c e => (deliver c e 0).1) (by0 5)) 3).map (·.state) = some 4 := by decide
+
+/-! ### the excluded case: a sibling that rotates the nostr group id
+
+  Incoming events are looked up by their `h` tag among the ids in the stored records (`find_group_by_nostr_group_id`).
+  Once the client has applied a sibling that ROTATES the id, every other sibling — published under the id of the parent
+  state — is refused as `GroupNotFound` before any MIP-03 comparison: the client stays on the rotating sibling whatever
+  its rank (finding `h-rotation-in-flight`; replayed by corpus/C01/rotation_fork.trace). -/
+
+/-- the bystander statement for siblings that may rotate the id (`SiblingsAnyId`: everything but `keepsId`) -/
+def single_fork_any_id_full : Prop :=
+  ∀ (c : Cl) (S l : List Ev) (nx : Nat), c.hasGroup = true → 1 ≤ c.retention → SecretsOK c.g → NoForkSnapshot c →
+    c.g.recNid = c.g.nid → SiblingsAnyId c S → (∀ e ∈ l, e ∈ S) → l ≠ [] →
+    ∃ w ∈ l, (∀ e ∈ l, e = w ∨ klt (key w) (key e) = true) ∧
+      (l.foldl (fun c e => (deliver c e nx).1) c).g.path = c.g.path ++ [w.cipher]
+
+/-- admin 0 rotates the nostr group id (0 → 8), wrapper timestamp 20: loses to `cB` (timestamp 19) by MIP-03 -/
+def cR : Ev := { n := 4, ts := 20, idnum := 5, cipher := 4, sender := 0, path := [], kind := .commit (.setData { initData [0, 1] 1 with nid := 8 }) [] }
+
+theorem by0_siblings_rot : SiblingsAnyId (by0 5) [cR, cB] where
+  path := by decide
+  kind := by
+    intro e he
+    simp only [List.mem_cons, List.not_mem_nil, or_false] at he
+    rcases he with rfl | rfl
+    · exact ⟨_, [], rfl, by decide⟩
+    · exact ⟨_, [], rfl, by decide⟩
+  foreign := by decide
+  ts := by decide
+  distinct := by decide
+  unseen := by decide
+  unconsumed := by decide
+  tag := by decide
+
+/-- the rotating sibling first, then the MIP-03 winner: not found, recorded Failed without epoch, the client stays -/
+theorem witness_rotation_fork :
+    (deliver (deliver (by0 5) cR 0).1 cB 0).2 = .err eGroupNotFound ∧
+    ([cR, cB].foldl (fun c e => (deliver c e 0).1) (by0 5)).g.path = [4] ∧
+    ([cR, cB].foldl (fun c e => (deliver c e 0).1) (by0 5)).g.recNid = 8 ∧
+    (getRec ([cR, cB].foldl (fun c e => (deliver c e 0).1) (by0 5)) 2) = some { state := 3, epoch := none, hasGroup := false, mid := none } ∧
+    -- the other order is fine: the winner first, then the rotation is an ordinary worse sibling
+    ([cB, cR].foldl (fun c e => (deliver c e 0).1) (by0 5)).g.path = [2] := by decide
+
+theorem single_fork_any_id_full_false : ¬ single_fork_any_id_full := by
+  intro h
+  obtain ⟨w, hw, hmin, hpath⟩ := h (by0 5) [cR, cB] [cR, cB] 0 rfl (by decide) (by0_secrets 5) (by0_nosnap 5) rfl by0_siblings_rot
+    (by decide) (by decide)
+  have hwB : w = cB := by
+    simp only [List.mem_cons, List.not_mem_nil, or_false] at hw
+    rcases hw with rfl | rfl
+    · rcases hmin cB (by decide) with x | x
+      · exact x.symm
+      · revert x; decide
+    · rfl
+  subst hwB
+  rw [witness_rotation_fork.2.1] at hpath
+  revert hpath; decide
 
 /-! ### the ciphertext hypotheses are needed too
 
@@ -291,6 +374,8 @@ structure OwnCommit (c : Cl) (o : Ev) : Prop where
   ts : o.ts ≠ 0
   pending : c.g.pending = some o
   record : getRec c o.n = some { state := 2, epoch := some (epochOf c.g.path), hasGroup := true, mid := none }
+  tag : o.tag = c.g.recNid
+  keepsId : ∀ d sw, o.kind = .commit (.setData d) sw → d.nid = c.g.recNid
 
 theorem secretsOK_ensure (g : GState) (h : SecretsOK g) : SecretsOK (ensureSecret g) := by
   unfold ensureSecret
@@ -306,12 +391,15 @@ theorem secretsOK_ensure (g : GState) (h : SecretsOK g) : SecretsOK (ensureSecre
     · rw [Store.alookup_ainsert_ne _ _ _ _ c] at hq
       exact h ep q hq
 
-/-- `self_update` / `update_group_data` (stage + publish) establishes the committer's hypotheses -/
+/-- `self_update` / `update_group_data` (stage + publish) establishes the committer's hypotheses — for a
+    commit that does not rotate the nostr group id -/
 theorem stage_own_commit (c : Cl) (n ts idn : Nat) (b : Body) (na : Bool) (o : Ev)
     (hts : ts ≠ 0) (hsec : SecretsOK c.g) (hm : NoForkSnapshot c)
+    (hk : ∀ d, b = .setData d → d.nid = c.g.recNid)
     (h : (stageCommit c n ts idn b na).2 = .ev o) :
     OwnCommit (stageCommit c n ts idn b na).1 o ∧ SecretsOK (stageCommit c n ts idn b na).1.g ∧
-    NoForkSnapshot (stageCommit c n ts idn b na).1 ∧ (stageCommit c n ts idn b na).1.g.path = c.g.path := by
+    NoForkSnapshot (stageCommit c n ts idn b na).1 ∧ (stageCommit c n ts idn b na).1.g.path = c.g.path ∧
+    (stageCommit c n ts idn b na).1.g.recNid = c.g.recNid ∧ (stageCommit c n ts idn b na).1.g.nid = c.g.nid := by
   unfold stageCommit at h ⊢
   split at h
   · cases h
@@ -322,8 +410,13 @@ theorem stage_own_commit (c : Cl) (n ts idn : Nat) (b : Body) (na : Bool) (o : E
       · rename_i h1 h2 h3
         simp only [h1, h2, h3, if_false, Bool.false_eq_true] at h ⊢
         cases h
-        refine ⟨⟨by simp [setRec], ⟨b, _, rfl⟩, rfl, hts, by simp [setRec], ?_⟩, ?_, ?_, by simp [setRec]⟩
+        refine ⟨⟨by simp [setRec], ⟨b, _, rfl⟩, rfl, hts, by simp [setRec], ?_, by simp [setRec], ?_⟩, ?_, ?_, by simp [setRec],
+          by simp [setRec], by simp [setRec]⟩
         · simp [setRec, getRec, Store.alookup_ainsert_self]
+        · intro d sw hd
+          simp only [Kind.commit.injEq] at hd
+          have := hk d hd.1
+          simpa [setRec] using this
         · intro ep q hq
           have := secretsOK_ensure c.g hsec ep q (by simpa [setRec] using hq)
           simpa [setRec] using this
@@ -331,11 +424,12 @@ theorem stage_own_commit (c : Cl) (n ts idn : Nat) (b : Body) (na : Bool) (o : E
           have := hm s (by simpa [setRec] using hs)
           simpa [setRec] using this
 
-theorem sibs2_of (c : Cl) (o : Ev) (S : List Ev) (ho : OwnCommit c o) (h : Siblings c S)
+theorem sibs2_of (c : Cl) (o : Ev) (S : List Ev) (hn : c.g.recNid = c.g.nid) (ho : OwnCommit c o) (h : Siblings c S)
     (hd : ∀ e ∈ S, e.n ≠ o.n ∧ (e.ts, e.idnum) ≠ (o.ts, o.idnum)) : Sibs2 c o S where
-  own := ⟨ho.path, ho.kind, by simp [ho.own], ho.ts, ho.pending, ho.record⟩
-  sib := (sibs_of c S h).sib
-  cinj := (sibs_of c S h).cinj
+  own := ⟨ho.path, ho.kind, by simp [ho.own], ho.ts, ho.pending, ho.record, ho.tag,
+    fun b sw hk => keeps_nid c hn b (fun d hd => ho.keepsId d sw (by rw [hk, hd]))⟩
+  sib := (sibs_of c S hn h).sib
+  cinj := (sibs_of c S hn h).cinj
   inj := by
     intro e1 h1 e2 h2 hk
     rcases List.mem_cons.mp h1 with rfl | h1' <;> rcases List.mem_cons.mp h2 with rfl | h2'
@@ -348,7 +442,7 @@ theorem sibs2_of (c : Cl) (o : Ev) (S : List Ev) (ho : OwnCommit c o) (h : Sibli
       rcases hk with y | y
       · exact absurd y a
       · exact absurd y b
-    · exact (sibs_of c S h).inj e1 h1' e2 h2' hk
+    · exact (sibs_of c S hn h).inj e1 h1' e2 h2' hk
   norec := h.unseen
 
 /-- **single_fork (committer, own commit applied on echo)**: for every delivery list over the own
@@ -357,6 +451,7 @@ theorem sibs2_of (c : Cl) (o : Ev) (S : List Ev) (ho : OwnCommit c o) (h : Sibli
     ProcessedCommit, and every other delivered FOREIGN sibling blocked -/
 theorem single_fork_committer (c : Cl) (o : Ev) (S : List Ev) (l : List Ev) (nx : Nat)
     (hg : c.hasGroup = true) (hr : 1 ≤ c.retention) (hsec : SecretsOK c.g) (hm : NoForkSnapshot c)
+    (hn : c.g.recNid = c.g.nid)
     (ho : OwnCommit c o) (hS : Siblings c S)
     (hd : ∀ e ∈ S, e.n ≠ o.n ∧ (e.ts, e.idnum) ≠ (o.ts, o.idnum))
     (hl : ∀ e ∈ l, e ∈ o :: S) (hne : l ≠ []) :
@@ -367,7 +462,7 @@ theorem single_fork_committer (c : Cl) (o : Ev) (S : List Ev) (l : List Ev) (nx 
       (getRec (l.foldl (fun c e => (deliver c e nx).1) c) w.n).map (·.state) = some 2 ∧
       ∀ e ∈ l, e ≠ w → e ≠ o → ∃ r, getRec (l.foldl (fun c e => (deliver c e nx).1) c) e.n = some r ∧ (r.state = 3 ∨ r.state = 4) := by
   have hb := base_of c hg hr hsec hm
-  have hSs := sibs2_of c o S ho hS hd
+  have hSs := sibs2_of c o S hn ho hS hd
   have hrel := rel2_run c hb o S hSs nx l c ⟨none, []⟩ (rel2_init c hb o S hSs) (by simp [FInv]) hl
   obtain ⟨ka, hka, hap, hmin, hblk⟩ := single_fork2 (key o) (l.map key) (by simpa using hne)
   obtain ⟨w, hwT, hwk, hcf, hrw⟩ := hrel.chi ka hap
@@ -451,7 +546,8 @@ theorem single_fork_reachable (id : Nat) (p : Bool) (r : Nat) (ms as : List Nat)
       (l.foldl (fun c e => (deliver c e nx).1) (ops.foldl C08.cstep (initCl id p r ms as name))).g.path =
         (ops.foldl C08.cstep (initCl id p r ms as name)).g.path ++ [w.cipher] := by
   obtain ⟨h1, h2, _⟩ := secrets_follow_path id p r ms as name ops
-  obtain ⟨w, hw, hmin, hp, _⟩ := single_fork_bystander _ S l nx hg hr h1 h2 hS hl hne
+  have hn := (C08.sync_inv id p r ms as name ops).2.2.2.2.2
+  obtain ⟨w, hw, hmin, hp, _⟩ := single_fork_bystander _ S l nx hg hr h1 h2 hn hS hl hne
   exact ⟨w, hw, hmin, hp⟩
 
 end MdkVerif.Props.C01Fork
